@@ -39,7 +39,7 @@ Out0 == [state |-> "", processed |-> <<>>, notProcessed |-> <<>>, kind |-> ""]
 
 TInit ==
   /\ l = 1 /\ okf = TRUE /\ scn = "" /\ live = FALSE
-  /\ n = 0 /\ E = {} /\ C = {} /\ cnt = <<>> /\ readyQ = <<>> /\ readyTx = FALSE /\ doneQ = <<>> /\ doneTx = FALSE
+  /\ n = 0 /\ E = {} /\ C = <<>> /\ cnt = <<>> /\ readyQ = <<>> /\ readyTx = FALSE /\ doneQ = <<>> /\ doneTx = FALSE
   /\ qRem = 0 /\ qDone = FALSE /\ sRem = 0 /\ processed = <<>> /\ is = IS0 /\ intRun = 0 /\ pulled = <<>>
   /\ pullsAfterSig = 0
   /\ running = {} /\ open = <<>> /\ started = <<>> /\ ended = {} /\ failed = {} /\ errors = <<>>
@@ -61,7 +61,7 @@ TReset ==
 TBuild ==
   /\ IsEv("build") /\ okf
   /\ LET S == { <<Rec[l].edges[i][1], Rec[l].edges[i][2]>> : i \in DOMAIN Rec[l].edges } IN
-     E' = S /\ C' = Closure(n, S)
+     E' = S /\ C' = ReachAny(n, S)
   /\ Step /\ Keep
   /\ UNCHANGED <<n, cnt, readyQ, readyTx, doneQ, doneTx, qRem, qDone, sRem, processed, is, intRun, pulled, running, open,
                  started, ended, failed, errors, sigChan, sigSent, afterSig, pullsAfterSig, sEnded, sDone, foldErr, returned,
